@@ -230,6 +230,10 @@ func (v *ScriptView) writeModifySQLForAColumn(attrTypeOld, attrTypeNew *sysl.Typ
 					tableName, attrName, datatype))
 			}
 		}
+		if isAutoIncrementNew {
+			// columns that refer to an auto increment column are bigint, as in the create script
+			datatype = bigIntConst
+		}
 	}
 	visitedAttributes[tableName+"."+attrName] = datatype
 	return primaryKeyChanged, isPrimaryKeyOld
